@@ -11,7 +11,8 @@
 From Coq Require Import ZArith QArith List Bool Lia Permutation Arith.
 From VL Require Import Prelude.PyDict Model.GetNBest Model.Convert Model.Cardinal Model.Condorcet Proofs.Dict_proofs Proofs.GetNBest_proofs
      Proofs.QOrd Proofs.HA_proofs Proofs.Condorcet_proofs Proofs.Shape_proofs Proofs.Smith_proofs Proofs.Minimax_proofs
-     Proofs.Schulze_proofs Proofs.Kemeny_proofs Proofs.RankedPairs_proofs Proofs.Cardinal_proofs Proofs.MJ_proofs Proofs.JR_proofs.
+     Proofs.Schulze_proofs Proofs.Kemeny_proofs Proofs.RankedPairs_proofs Proofs.Cardinal_proofs Proofs.MJ_proofs Proofs.JR_proofs
+     Prelude.Sx Prelude.GDict Model.Bucklin Proofs.Bucklin_proofs.
 Import ListNotations.
 Close Scope Q_scope.
 Close Scope Z_scope.
@@ -491,4 +492,82 @@ Proof.
       apply Hfin. apply mj_plus_nform; assumption.
     + match goal with |- context [mj_default ?fu sub (S k0)] => destruct (mj_default fu sub (S k0)) as [r'|e1] eqn:Er end; [|discriminate].
       intros [= <-]. apply Hfin. eapply mj_default_nform; eassumption.
+Qed.
+
+(* ================================================================ PAV, SPAV *)
+(* the candidates of an approval profile *)
+Definition approval_cands (votes : aprofile) : list C := canon_set (flat_map fst votes).
+
+Theorem pav_nform votes n r : pav votes n = AR_ok r -> nform (approval_cands votes) n r.
+Proof.
+  intros H. destruct (pav_committee votes n r H) as (W & s & Hbest & Hp & ->).
+  destruct (pav_best_optimal votes _ n W Hbest) as [Hin _]. destruct (combos_sound _ _ _ Hin) as [Hss Hlen].
+  destruct (canon_set_spec (flat_map fst votes)) as [Hcn _]. fold (approval_cands votes) in *.
+  rewrite <- Hlen, <- (Permutation_length Hp). apply nform_plain.
+  - eapply Permutation_NoDup; [apply Permutation_sym, Hp|]. eapply subseq_NoDup; [exact Hss|exact Hcn].
+  - intros x Hx. eapply subseq_incl; [exact Hss|]. eapply Permutation_in; [exact Hp|exact Hx].
+Qed.
+
+Lemma spav_inner_keys (l : list C) (w : Q) x : forall d : list (C * Q),
+  In x (map fst (fold_left (fun d c => dset d c (dget_or d c 0 + w)%Q) l d)) <-> In x (map fst d) \/ In x l.
+Proof.
+  induction l as [|c l IH]; intros d; simpl; [tauto|]. rewrite IH, Condorcet_proofs.dset_keys_in. split.
+  - intros [[->|H]|H]; auto.
+  - intros [H|[->|H]]; auto.
+Qed.
+
+Lemma spav_round_keys votes elected x :
+  In x (map fst (spav_round votes elected)) <-> In x (flat_map fst votes) /\ ~ In x elected.
+Proof.
+  unfold spav_round. cbv zeta. rewrite (filter_keys_eq (fun c => negb (cmem c elected))), filter_In.
+  assert (H : forall (vs : aprofile) (d : list (C * Q)),
+    In x (map fst (fold_left (fun d bw =>
+      fold_left (fun d c => dset d c (dget_or d c 0 + snd bw / inject_Z (Z.of_nat (S (inter_size (fst bw) elected))))%Q) (fst bw) d) vs d))
+    <-> In x (map fst d) \/ In x (flat_map fst vs)).
+  { induction vs as [|bw vs IH]; intros d; simpl; [tauto|]. rewrite IH, spav_inner_keys, in_app_iff. tauto. }
+  rewrite (H votes []). simpl. rewrite negb_true_iff, <- not_true_iff_false, Shape_proofs.cmem_In. tauto.
+Qed.
+
+Lemma spav_loop_shape votes cands : NoDup cands -> (forall x, In x cands <-> In x (flat_map fst votes)) ->
+  forall fuel n elected r, NoDup elected -> incl elected cands -> length elected <= n -> n <= length elected + fuel ->
+  n <= length cands -> spav_loop fuel votes n elected = Some r ->
+  NoDup r /\ incl r cands /\ length r = n.
+Proof.
+  intros Hcn Hck. induction fuel as [|f IH]; intros n elected r He Hi Hle Hf Hn; simpl.
+  - assert (Nat.leb n (length elected) = true) as -> by (apply Nat.leb_le; lia). intros [= <-]. repeat split; try assumption. lia.
+  - destruct (Nat.leb n (length elected)) eqn:El.
+    + apply Nat.leb_le in El. intros [= <-]. repeat split; try assumption. lia.
+    + apply Nat.leb_gt in El.
+      (* somebody is still to be elected *)
+      assert (Hex : exists c, In c cands /\ ~ In c elected).
+      { destruct (existsb (fun c => negb (cmem c elected)) cands) eqn:E.
+        - apply existsb_exists in E. destruct E as (c & Hc & Hm). exists c. split; [exact Hc|].
+          apply negb_true_iff in Hm. intros Hin. apply Shape_proofs.cmem_In in Hin. congruence.
+        - exfalso. assert (Hsub : incl cands elected).
+          { intros c Hc. destruct (cmem c elected) eqn:Em; [apply Shape_proofs.cmem_In, Em|].
+            assert (existsb (fun c => negb (cmem c elected)) cands = true) by (apply existsb_exists; exists c; rewrite Em; auto). congruence. }
+          pose proof (NoDup_incl_length Hcn Hsub). lia. }
+      destruct Hex as (c0 & Hc0 & Hn0).
+      assert (Hne : spav_round votes elected <> []).
+      { intros E. assert (Hk : In c0 (map fst (spav_round votes elected))) by (apply spav_round_keys; split; [apply Hck, Hc0|exact Hn0]).
+        rewrite E in Hk. destruct Hk. }
+      pose proof (Bucklin_proofs.gnb1_length _ Hne) as Hl1.
+      destruct (get_n_best Qle_bool (spav_round votes elected) 1) as [|[c|t] rest] eqn:Eg; [simpl in Hl1; lia| |discriminate].
+      assert (Hc : In c (map fst (spav_round votes elected))) by (apply (get_n_best_cand_in _ 1); rewrite Eg; left; reflexivity).
+      apply spav_round_keys in Hc. destruct Hc as [Hc1 Hc2]. apply Hck in Hc1.
+      apply IH.
+      * apply Threshold_proofs.nodup_app_intro; [exact He|constructor; [intros []|constructor]|]. intros x Hx [<-|[]]. exact (Hc2 Hx).
+      * intros x Hx. apply in_app_or in Hx. destruct Hx as [Hx|[<-|[]]]; [apply Hi, Hx|exact Hc1].
+      * rewrite app_length. simpl. lia.
+      * rewrite app_length. simpl. lia.
+      * exact Hn.
+Qed.
+
+Theorem spav_nform votes n r : n <= length (approval_cands votes) -> spav votes n = Some r ->
+  nform (approval_cands votes) n (map Cand r).
+Proof.
+  intros Hn H. destruct (canon_set_spec (flat_map fst votes)) as [Hcn Hck]. fold (approval_cands votes) in *.
+  destruct (spav_loop_shape votes (approval_cands votes) Hcn Hck n n [] r (NoDup_nil _)) as (H1 & H2 & H3);
+    [intros x []|simpl; lia|simpl; lia|exact Hn|exact H|].
+  rewrite <- H3. apply nform_plain; assumption.
 Qed.
